@@ -174,6 +174,9 @@ where
     /// C53: peers currently forbidden (blocked / not allowed) in the reference
     forbidden: std::collections::BTreeSet<u8>,
     forbid_count: u32,
+    /// C53: connections that existed when their peer became forbidden ("are closed", whatever
+    /// happens to the list afterwards)
+    doomed: Vec<usize>,
     /// C58: notifications sent: (n, field, conn)
     notified: Vec<(u32, u8, usize)>,
     notify_seq: u32,
@@ -196,7 +199,7 @@ where
         let probe = B::make(log.clone(), &cfg);
         let scfg = SysCfg { exec: if cfg.local_exec { Exec::Local } else { Exec::Harness }, explore_schedule: cfg.explore_schedule, ..Default::default() };
         let sys = SwarmSys::new(probe, log, scfg);
-        let mut s = Sys { cfg, sys, conns: vec![], sw_seq: vec![], fs_seq: vec![], listener_up: false, drained: false, violation: None, att_owner: vec![], pending_in_cid: Default::default(), pending_out_pos: vec![], horizon_hits: 0, mismatch_resolved: false, forbidden: Default::default(), forbid_count: 0, notified: vec![], notify_seq: 0, full_log: vec![], limit_hit: false };
+        let mut s = Sys { cfg, sys, conns: vec![], sw_seq: vec![], fs_seq: vec![], listener_up: false, drained: false, violation: None, att_owner: vec![], pending_in_cid: Default::default(), pending_out_pos: vec![], horizon_hits: 0, mismatch_resolved: false, forbidden: Default::default(), forbid_count: 0, doomed: vec![], notified: vec![], notify_seq: 0, full_log: vec![], limit_hit: false };
         s.ensure_listener();
         let sched = std::mem::replace(&mut s.sys.explore_schedule, false);
         // start states: 0 = initial, 1 = [P1], 2 = [P1, P1], 3 = [P1, P2] already established
@@ -776,7 +779,8 @@ where
         let info = self.sys.swarm.network_info();
         let cc = info.connection_counters();
         format!(
-            "{:?}|{:?}|{}|{}|{:?}|{:?}|{}|{}|{:?}|{:?}",
+            "{:?}|{:?}|{:?}|{}|{}|{:?}|{:?}|{}|{}|{:?}|{:?}",
+            self.doomed,
             self.forbidden,
             self.notified,
             self.forbid_count,
@@ -908,7 +912,13 @@ where
             }
             Act::List { op, p } => {
                 if *op == 0 {
-                    self.forbidden.insert(*p);
+                    if self.forbidden.insert(*p) {
+                        for c in self.live_of(*p) {
+                            if !self.doomed.contains(&c) {
+                                self.doomed.push(c);
+                            }
+                        }
+                    }
                     self.forbid_count += 1;
                 } else {
                     self.forbidden.remove(p);
@@ -1054,6 +1064,12 @@ where
     }
 
     fn check_c53(&self) -> Result<(), String> {
+        for &c in &self.doomed {
+            let closed = self.conns[c].sw.iter().any(|s| s == "Closed") || self.mux_of(c).map(|m| m.lock().unwrap().close_polled > 0).unwrap_or(false);
+            if !closed {
+                return Err(format!("existing-connection-not-closed :: connection c{c} existed when its peer became forbidden but is still established (and nobody tried to close it) at quiescence"));
+            }
+        }
         for &p in &self.forbidden {
             // a connection whose muxer has been asked to close (and keeps the answer pending, a
             // scripted environment behaviour) is being closed: only connections nobody tried to
@@ -1449,7 +1465,7 @@ pub fn run_c06(ctx: &Ctx) -> Outcome {
         }
     }
     let _ = pname;
-    run_generic::<Probe>(ctx, Which::C06, cfgs, ctx.tier.pick(3, 4), (ctx.tier.pick(2, 3), 1))
+    run_generic::<Probe>(ctx, Which::C06, cfgs, ctx.tier.pick(4, 5), (ctx.tier.pick(3, 4), ctx.tier.pick(1, 2)))
 }
 
 
@@ -1557,8 +1573,8 @@ pub fn run_c58(ctx: &Ctx) -> Outcome {
         }
         v
     };
-    let d = ctx.tier.pick(3, 4);
-    let sch = (ctx.tier.pick(2, 3), 1);
+    let d = ctx.tier.pick(3, 5);
+    let sch = (ctx.tier.pick(3, 4), ctx.tier.pick(1, 2));
     let mut o = run_generic::<crate::compose::Two>(ctx, Which::C58, mk(2), d, sch);
     // the three-field subject is marked by max_conns + 10 so that a replay file identifies it
     let three: Vec<LifeCfg> = mk(3).into_iter().map(|mut c| { c.max_conns += 10; c }).collect();
